@@ -69,9 +69,11 @@ def semi_tie(res):
         payloads.append(dict(kind="obligation", obligation=dict(correspondence="semicolon-rule tie", log=(r.stderr + j.stderr)[-800:] or "no records")))
     return tot, payloads
 
+L0_PROPS = ("C01", "C02", "C03", "C06", "C10", "C11")
 def l0_tie(res):
-    """C01 C02 C06 C10: the L0 whole-formatter model (Fmt0.format0, extracted) against the binary, byte for byte, on programs of
-    the fragment in arbitrary layout under four whitespace configurations each.  Returns (totals, payloads)."""
+    """C01 C02 C03 C06 C10 C11: the L0 whole-formatter model (Fmt0.format0, extracted) against the binary, byte for byte, on programs
+    of the fragment in arbitrary layout (call sugar included) under four configurations each: line endings x indentation, with a
+    quote style, a call_parentheses and a space_after_function_names value drawn for each.  Returns (totals, payloads)."""
     n = 1500 if res.tier == "quick" else 40000
     lines, errs = run_pipeline_sharded(lambda i, k: ([SVH, "l0", "--seed", str(res.seed), "--n", str(n), "--shard", "%d/%d" % (i, k)], [driver("drv_l0")]))
     tot, stats, payloads = {}, {}, []
@@ -82,7 +84,7 @@ def l0_tie(res):
             for k, v in parse_kv(l).items(): stats[k] = stats.get(k, 0) + int(v)
         elif l.startswith("BAD") and len(payloads) < 3:
             w = l.split()
-            payloads.append(dict(kind="input", check="L0:" + w[1], case=w[2], family="l0", seed=res.seed, n=n, region="L0 tie (programs of the fragment, 4 whitespace configurations)",
+            payloads.append(dict(kind="input", check="L0:" + w[1], case=w[2], family="l0", seed=res.seed, n=n, region="L0 tie (programs of the fragment, 4 configurations: whitespace, quote style, call_parentheses, space_after_function_names)",
                                  expected="Fmt0.format0 (extracted) = the library's output, byte for byte"))
     if errs or not tot.get("records") or tot.get("records") != stats.get("records"):
         payloads.append(dict(kind="obligation", obligation=dict(correspondence="L0 tie", log="; ".join(errs) or "record count mismatch")))
@@ -107,7 +109,7 @@ def run_prop(res, prop, extra_obligations=1):
     sp = SPEC[prop]
     semi = prop in ("C01", "C02")
     kernels = {"C01": ["semicolon_rule"], "C02": ["semicolon_rule"], "C10": ["whitespace_and_call_options"], "C11": ["quote_choice", "whitespace_and_call_options"]}.get(prop, [])
-    if prop in ("C01", "C02", "C03", "C06", "C10"): extra_obligations += 1     # the L0 tie
+    if prop in L0_PROPS: extra_obligations += 1     # the L0 tie
     t_ok, t_log = True, ""
     for kname in kernels:               # Tie 1: each kernel the theorems speak about is regenerated from /repo's source
         extra_obligations += 1
@@ -125,7 +127,7 @@ def run_prop(res, prop, extra_obligations=1):
         res.coverage["evaluations"] = res.coverage.get("evaluations", 0) + tot.get("records", 0)
         res.coverage["input_distribution"]["semicolon_rule_tie"] = tot
         res.coverage["kernels_translated"] = ["src/formatters/block.rs :: var_has_parentheses, check_stmt_requires_semicolon -> coq/gen/SemiRule.v (rs2v)"]
-    if prop in ("C01", "C02", "C03", "C06", "C10"):
+    if prop in L0_PROPS:
         l0, more = l0_tie(res)
         payloads = more + payloads; ok = ok and not more
         res.coverage["evaluations"] = res.coverage.get("evaluations", 0) + l0.get("records", 0)
